@@ -1,4 +1,5 @@
 import KanidmProofs.Lemmas.TxnSnapshot
+import KanidmModel.ReloadDispatch
 /-!
 # C06 — read transactions see one consistent committed state
 
@@ -217,3 +218,49 @@ example : cellNewAt .entryCache flatSteps.length = true ∧ dbNewAt flatSteps.le
     cellNewAt .entryCache (windowPos + 1) = false := by decide
 
 end Kanidm.TxnSnapshot
+
+/-! ## the reload dispatch at the start of `commit()` (several reload flags set by ONE write transaction) -/
+namespace Kanidm.ReloadDispatch
+open Kanidm.Gen.ReloadDispatch
+
+/-- Without `else if` chains every check whose flags intersect runs. -/
+theorem run_unchained (changed : List Flag) (cs : List Check) (t : Bool)
+    (h : ∀ c ∈ cs, c.chained = false) (c : Check) (hc : c ∈ cs) (hh : hit changed c = true)
+    (r : Reload) (hr : r ∈ c.calls) : r ∈ run changed cs t := by
+  induction cs generalizing t with
+  | nil => cases hc
+  | cons d ds ih =>
+    have hd : d.chained = false := h d (List.mem_cons_self ..)
+    simp only [run, hd, Bool.false_and, Bool.not_false, Bool.and_true, Bool.false_or, List.mem_append]
+    rcases List.mem_cons.mp hc with rfl | hc'
+    · left; simp [hh, hr]
+    · right; exact ih _ (fun x hx => h x (List.mem_cons_of_mem _ hx)) hc'
+
+/-- The generated checks of `reload()` are independent `if`s: whatever set of flags ONE write transaction
+set, every check whose flags intersect it executes all of its reload functions (an `else if` between two
+checks — e.g. system config / domain info — generates `chained := true` and this stops proving). -/
+theorem reload_checks_independent (changed : List Flag) (c : Check) (hc : c ∈ checks)
+    (hh : hit changed c = true) (r : Reload) (hr : r ∈ c.calls) : r ∈ reloadRuns changed :=
+  run_unchained changed checks false (by decide) c hc hh r hr
+
+/-- Every flag `reload()` clears is served by a check: a set flag is never dropped without its reload. -/
+theorem reload_cleared_flags_served : ∀ f ∈ cleared, ∃ c ∈ checks, f ∈ c.flags ∧ c.calls ≠ [] := by decide
+
+/-- Hence: for every cleared flag a transaction set, some reload function of a check naming it ran. -/
+theorem reload_serves_every_set_flag (changed : List Flag) (f : Flag) (hf : f ∈ cleared) (hs : f ∈ changed) :
+    ∃ c ∈ checks, f ∈ c.flags ∧ c.calls ≠ [] ∧ ∀ r ∈ c.calls, r ∈ reloadRuns changed := by
+  obtain ⟨c, hc, hfc, hne⟩ := reload_cleared_flags_served f hf
+  refine ⟨c, hc, hfc, hne, fun r hr => reload_checks_independent changed c hc ?_ r hr⟩
+  exact List.any_eq_true.mpr ⟨f, hfc, by simpa using hs⟩
+
+/-- Non-vacuity: a transaction that changes system config and domain info runs both reloads
+(and the version check), in source order. -/
+example : reloadRuns [.systemConfig, .domain] = [.reloadDomainInfoVersion, .reloadSystemConfig, .reloadDomainInfo] := by decide
+
+/-- The model does distinguish a chained dispatch: with `else if` between the two checks the domain
+reload is skipped when both flags are set. -/
+example : run [.systemConfig, .domain]
+    [⟨[.systemConfig], [.reloadSystemConfig], false⟩, ⟨[.domain], [.reloadDomainInfo], true⟩] false
+    = [.reloadSystemConfig] := by decide
+
+end Kanidm.ReloadDispatch
